@@ -153,6 +153,8 @@ pub(crate) struct SyncAssetTransfer {
     audios_to_apply: AudioCache,
     pending: PendingDownloads,
     max_transfer: usize,
+    #[cfg(feature = "verif_hooks")]
+    verif_dropped: Arc<Mutex<Vec<(u8, Uuid)>>>,
 }
 
 impl SyncAssetTransfer {
@@ -188,6 +190,8 @@ impl SyncAssetTransfer {
             audios,
             audios_to_apply,
             pending,
+            #[cfg(feature = "verif_hooks")]
+            verif_dropped: Arc::new(Mutex::new(Vec::new())),
         };
 
         let (server_tx, server_rx) = channel::<Request>();
@@ -233,6 +237,8 @@ impl SyncAssetTransfer {
             request_number = entry.requested;
         }
         let pending = self.pending.clone();
+        #[cfg(feature = "verif_hooks")]
+        let verif_dropped = self.verif_dropped.clone();
         self.download_pool.execute(move || {
             if let Ok(response) = ureq::get(url.as_str()).call() {
                 let len = response
@@ -262,6 +268,10 @@ impl SyncAssetTransfer {
                             }
                         })
                         .unwrap_or(false);
+                    #[cfg(feature = "verif_hooks")]
+                    if outdated {
+                        verif_dropped.lock().unwrap().push(key);
+                    }
                     match asset_type {
                         _ if outdated => debug!("Dropping outdated download of {}", id),
                         SyncAssetType::Mesh => {
@@ -565,11 +575,12 @@ impl SyncAssetTransfer {
                 let mut v: Vec<(u8, Uuid, usize)> = self
                     .pending
                     .read()
-                    .map(|m| m.iter().map(|((c, id), (n, _))| (*c, *id, *n)).collect())
+                    .map(|m| m.iter().map(|((c, id), e)| (*c, *id, e.under_way)).collect())
                     .unwrap_or_default();
                 v.sort();
                 v
             },
+            dropped: self.verif_dropped.lock().unwrap().clone(),
         }
     }
 
